@@ -67,6 +67,11 @@ func lambdaSpecials() []*big.Int {
 		out = append(out, oracle.FromMont(oracle.Limbs(x), p))
 	}
 
+	// stored form occupying a single limb (what a "short operand" fast path of a multiplication takes)
+	for _, l := range SingleLimbStored() {
+		out = append(out, oracle.FromMont(l, p))
+	}
+
 	// stored form adjacent to the Montgomery form of 1 (R mod p = {0x1000003d1,0,0,0}): equal to it in three limbs. This
 	// is what an "is z == 1" fast path that drops or duplicates a limb confuses with 1.
 	oneM := oracle.ToMont(big.NewInt(1), p)
@@ -80,6 +85,40 @@ func lambdaSpecials() []*big.Int {
 			}
 		}
 	}
+
+	return out
+}
+
+// SingleLimbStored returns stored forms with one non-zero limb.
+func SingleLimbStored() [][4]uint64 {
+	var out [][4]uint64
+
+	for _, w := range []uint64{^uint64(0), 1 << 63, 0xffffffff00000000, 2, 0x8000000000000001} {
+		out = append(out, [4]uint64{w, 0, 0, 0})
+	}
+
+	out = append(out, [4]uint64{0, 0, 0, 1}, [4]uint64{0, 1, 0, 0}, [4]uint64{0, 0, ^uint64(0), 0})
+
+	return out
+}
+
+// SmallStoredTargets returns stored values in [2^32+977, 2^64): what a Montgomery product is when the unreduced
+// accumulator lands just above 2^256 (it is then the accumulator minus p), and the results a single-limb shortcut must get
+// right.
+func SmallStoredTargets() []*big.Int {
+	c := new(big.Int).Sub(two256, oracle.P)
+
+	var out []*big.Int
+
+	for _, d := range []int64{0, 1, 2, 1000} {
+		out = append(out, addI(c, d))
+	}
+
+	for _, k := range []uint{33, 40, 48, 56, 62, 63} {
+		out = append(out, pow2(int(k)), addI(pow2(int(k)), 1), addI(pow2(int(k)), -1))
+	}
+
+	out = append(out, addI(pow2(64), -1), addI(pow2(64), -2), new(big.Int).SetUint64(0xfedcba9876543210), new(big.Int).SetUint64(0x8000000100000001))
 
 	return out
 }
@@ -549,6 +588,11 @@ func ReprPairHitting(p, q oracle.Pt, l1 *big.Int, which string, t *big.Int) (Rep
 		den = oracle.FMul(l1, oracle.FMul(p.Y, q.Y))
 	case "Z1Z2":
 		den = oracle.Mod(l1, oracle.P)
+	case "X2Z1":
+		// the cross products of a projective equality test: X2*Z1 = (l2 x_q) * l1
+		den = oracle.FMul(l1, q.X)
+	case "Y2Z1":
+		den = oracle.FMul(l1, q.Y)
 	}
 
 	if den == nil || den.Sign() == 0 || v.Sign() == 0 {
@@ -577,6 +621,17 @@ func PointWithStoredY2(t *big.Int) (oracle.Pt, bool) {
 	p := oracle.Pt{X: x, Y: y}
 
 	return p, oracle.OnCurve(p)
+}
+
+// PointWithStoredY returns a curve point whose y coordinate has the stored value t (the value a decoder negates when the
+// requested parity is the other one), if y^2 - 7 is a cube.
+func PointWithStoredY(t *big.Int) (oracle.Pt, bool) {
+	return oracle.LiftY(oracle.FromMont(oracle.Limbs(t), oracle.P))
+}
+
+// PointWithStoredX returns a curve point whose x coordinate has the stored value t.
+func PointWithStoredX(t *big.Int) (oracle.Pt, bool) {
+	return oracle.LiftX(oracle.FromMont(oracle.Limbs(t), oracle.P), 0)
 }
 
 // PointWithStoredX3 returns a curve point whose x^3 has the stored value t.
